@@ -33,6 +33,10 @@ def rotatedplanar : List String → Option String
       let r ← parseInt? r; let c ← parseInt? c; let i ← parseIdx? i
       let op ← (match op.toList with | [ch] => P1.ofChar? ch | _ => none)
       pure (showBits (RotatedPlanar.site r c op (RotatedPlanar.identity r c) i))
+  | ["sites", r, c, op, v, l] => do
+      let r ← parseInt? r; let c ← parseInt? c; let op ← parseOp1? op; let v ← parseBits? v; let l ← parseIdxList? l
+      if v.length != 2 * (RotatedPlanar.nQubits r c).toNat then none
+      else pure (showBits (RotatedPlanar.sites r c op v l))
   | ["plaq", r, c, i] => do
       let r ← parseInt? r; let c ← parseInt? c; let i ← parseIdx? i
       pure (showBits (RotatedPlanar.plaquette r c (RotatedPlanar.identity r c) i.1 i.2))
